@@ -1,8 +1,8 @@
 (* C30 — Declaration and type-string errors are reported as cffi errors.
    Statements only; proofs in C30/Proofs.v, C30/Proofs2.v.  About the models of
    Parser._parse_constant (C09/Gen.v regenerated from cparser.py + C09/Model.v), of
-   _process_macros/_add_integer_constant/_r_int_literal (C30/Model.v, C09/Model.v) and of _preprocess
-   (C31/Model.v).  parse_c_type.c is covered by the theorems imported from C07 (below); everything else past these
+   _process_macros/_add_integer_constant/_r_int_literal (C30/Model.v, C09/Model.v), of five stages of _preprocess
+   (C31/Model.v) and of _preprocess_extern_python (C30/ExternPy.v over the regenerated C30/Gen.v).  parse_c_type.c is covered by the theorems imported from C07 (below); everything else past these
    (pycparser, the rest of cparser.py, ffi_obj.c/_ffi_type, realize_c_type.c) is covered by fuzzing only
    (tools/props/c30.py): label partial. *)
 From Coq Require Import ZArith NArith String Ascii List Bool.
@@ -10,6 +10,7 @@ Import ListNotations.
 From Cffi Require Import C09.Prim C09.Gen C09.Model C30.Model C30.Proofs C30.Proofs2 C30.Proofs3.
 From Cffi Require C31.Model C31.Proofs2.
 From Cffi Require C07.Model C07.NoFault.
+From Cffi Require C30.Gen C30.ExternPy C30.Proofs4 C30.Proofs5.
 Open Scope Z_scope.
 Open Scope string_scope.
 
@@ -72,7 +73,7 @@ Theorem C30_process_macro_closed : forall value x, process_macro value = Err x -
 Proof. exact process_macro_closed. Qed.
 Print Assumptions C30_process_macro_closed.
 
-(* _preprocess (model of C31, tied to the real _preprocess on every run).  The model's exception type has the
+(* _preprocess: five of its stages (model of C31, tied to the real _preprocess on every run).  The model's exception type has the
    classes that occur in _put_back_line_directives: replace() by itself raises ValueError (a directive-like
    line that is not a '#line@N' placeholder; int() failing on N, with Python's int() grammar modelled) or
    IndexError (N out of range, with Python's negative indices modelled) ... *)
@@ -82,12 +83,71 @@ Theorem C30_replace_raw_errors : forall l st x, C31.Model.replace_raw l st = C31
 Proof. exact C31.Proofs2.replace_raw_errors. Qed.
 Print Assumptions C30_replace_raw_errors.
 
-(* ... and since fix 5595182 catches exactly these two classes, every failure of the whole _preprocess is a
-   CDefError (all texts).  Not vacuous: with `except ValueError` only, "/*\n*/#line@7" would give IndexError *)
+(* ... and the handler: `except (ValueError, IndexError): raise CDefError(...)` is REGENERATED from cparser.py into
+   C30/Gen.v (caught, handler_raises; tools/props/c30_regen.py).  replace_gen is replace() with that regenerated
+   handler; it coincides with the hand-written C31.Model.replace (so narrowing the except clause in the source breaks
+   this obligation, not only the fuzz witness "/*\n*/#line@7") and raises only CDefError *)
 (* [tie-preprocess] *)
-Theorem C30_preprocess_closed : forall s x, C31.Model.preprocess s = C31.Model.Err x -> x = C31.Model.CDefError.
+Theorem C30_handler_regenerated : forall l st, C30.Proofs5.replace_gen l st = C31.Model.replace l st.
+Proof. exact C30.Proofs5.replace_gen_is_model. Qed.
+Print Assumptions C30_handler_regenerated.
+
+(* [tie-preprocess] *)
+Theorem C30_replace_closed : forall l st x, C30.Proofs5.replace_gen l st = C31.Model.Err x -> x = C31.Model.CDefError.
+Proof. exact C30.Proofs5.replace_gen_closed. Qed.
+Print Assumptions C30_replace_closed.
+
+Example C30_placeholder_regenerated :
+  C30.Gen.placeholder = C31.Model.s_lineat /\ C30.Gen.placeholder_skip = length C31.Model.s_lineat /\
+  C30.Proofs5.to_c31 C30.Gen.not_placeholder_raises = Some C31.Model.ValueError.
+Proof. exact C30.Proofs5.placeholder_is_model. Qed.
+
+(* every failure of the FIVE MODELLED STAGES of _preprocess (C31.Model.preprocess: other-white-space normalisation,
+   line-directive stashing, comment removal, #define removal, putting the line directives back) is a CDefError (all
+   texts).  This is NOT the whole _preprocess: the stdcall/cdecl rewriting and the '...' rewriting with their `assert`s
+   (cparser.py:243-255) are not modelled, and _preprocess_extern_python, which also raises NotImplementedError, is
+   covered separately by C30_extern_python_closed below.
+   Not vacuous: with `except ValueError` only, "/*\n*/#line@7" would give IndexError *)
+(* [tie-preprocess] *)
+Theorem C30_preprocess_stages_closed : forall s x, C31.Model.preprocess s = C31.Model.Err x -> x = C31.Model.CDefError.
 Proof. exact C31.Proofs2.preprocess_errors. Qed.
-Print Assumptions C30_preprocess_closed.
+Print Assumptions C30_preprocess_stages_closed.
+
+(* ==== _preprocess_extern_python (cparser.py:98-140) and _r_extern_python (:48) ====
+   Model C30/ExternPy.v over facts regenerated into C30/Gen.v on every run (ep_requires_next: the pattern ends with
+   `\s*.`, so one more character belongs to every match; ep_end_adjust: the 1 of `endpos = match.end() - 1`; the
+   compared/searched characters; the three raised classes).  Indexing in the model is partial (csource[i] out of range
+   = Err IndexError) and the loop has fuel (exhaustion = Err OutOfFuel), so the statement says: for EVERY text (and
+   every reading isw/iss of \w and \s) the function terminates and raises nothing but CDefError / NotImplementedError
+   -- in particular csource[endpos] never raises IndexError, also when the text ends right after `extern <dq>Python<dq>`.
+   [tie-extpy] "C30.ExternPy.extern_python vs cparser._preprocess_extern_python": whole output / exception class on
+   every truncation of valid cdefs and on random marker/brace/semicolon/white-space soups (tools/props/c30.py) *)
+(* [tie-extpy] *)
+Theorem C30_extern_python_closed : forall (isw iss : N -> bool) s x,
+  C30.ExternPy.extern_python isw iss s = C30.ExternPy.Err x -> x = C30.Gen.CDefError \/ x = C30.Gen.NotImplementedError.
+Proof. exact C30.Proofs4.extern_python_closed. Qed.
+Print Assumptions C30_extern_python_closed.
+
+(* [tie-extpy] *)
+Theorem C30_extern_python_terminates_no_index_error : forall (isw iss : N -> bool) s,
+  C30.ExternPy.extern_python isw iss s <> C30.ExternPy.Err C30.Gen.OutOfFuel /\
+  C30.ExternPy.extern_python isw iss s <> C30.ExternPy.Err C30.Gen.IndexError.
+Proof. exact C30.Proofs4.extern_python_total. Qed.
+Print Assumptions C30_extern_python_terminates_no_index_error.
+
+(* both error classes occur; the marker at the very end of the text; accepted texts are rewritten *)
+Example C30_extern_python_examples :
+  let t s := map (fun a => N_of_ascii a) (list_ascii_of_string s) in
+  let ep s := C30.ExternPy.extern_python C30.ExternPy.py_word C30.ExternPy.py_space (t s) in
+  ep "extern ""Python""" = C30.ExternPy.Ok (t "extern ""Python""") /\     (* no character follows: no match; pycparser rejects it *)
+  ep "extern ""Python"" " = C30.ExternPy.Err C30.Gen.CDefError /\
+  ep "int f(int); extern ""Python+C"" " = C30.ExternPy.Err C30.Gen.CDefError /\
+  ep "extern ""Python"" { int f(int);" = C30.ExternPy.Err C30.Gen.CDefError /\
+  ep "extern ""Python"" { { } }" = C30.ExternPy.Err C30.Gen.NotImplementedError /\
+  ep "extern ""Python"" int f(int);" =
+    C30.ExternPy.Ok (t "void __cffi_extern_python_start; int f(int); void __cffi_extern_python_stop;") /\
+  ep "xextern ""Python"" int f(int);" = C30.ExternPy.Ok (t "xextern ""Python"" int f(int);").
+Proof. vm_compute. repeat split; reflexivity. Qed.
 
 Example C30_replace_raw_witnesses :
   C31.Model.replace_raw [32;35;32;53]%N [] = C31.Model.Err C31.Model.ValueError /\            (* " # 5" *)
